@@ -133,7 +133,14 @@ def _run_history(case, vseed):
             except Exception as e:  # noqa
                 alt = {"err": err_kind(e)}
         try:
-            sel = CVR.consistent_sampling(cvrs, contests, prev if (r["cont"] and prev is not None) else None)
+            # the cards already in the sample may be handed back in any order (as returned, by card index -- e.g.
+            # rebuilt from the `sampled` flags --, reversed): the documented argument is a set of indices
+            parg = None
+            if r["cont"] and prev is not None:
+                # (with tied sample numbers -- outside C07's quantifier -- the stable sort keeps the order handed in)
+                po = r.get("prev_order", "returned") if _valid_cards(case) else "returned"
+                parg = list(prev) if po == "returned" else (sorted(prev) if po == "index" else list(prev)[::-1])
+            sel = CVR.consistent_sampling(cvrs, contests, parg)
         except Exception as e:  # noqa
             out.append({"st": "err", "err": err_kind(e), "alt": alt})
             break
@@ -508,7 +515,8 @@ def gen_rounds(rng, n=None, ncon=None, nr=None, malformed=None):
     nr = nr or rng.randint(1, 4)
     cards = _cards(rng, n, cids, "ties" if malformed == "ties" else None)
     paths = {c: _size_path(rng, _avail(cards, c), nr) for c in cids}
-    rounds = [{"sizes": [paths[c][r] for c in cids], "cont": bool(r > 0 and rng.chance(0.5))} for r in range(nr)]
+    rounds = [{"sizes": [paths[c][r] for c in cids], "cont": bool(r > 0 and rng.chance(0.5)),
+               "prev_order": rng.choice(["returned", "returned", "index", "rev"])} for r in range(nr)]
     if malformed == "beyond":
         r = rng.randrange(nr); ci = rng.randrange(ncon)
         for rr in range(r, nr):
@@ -534,7 +542,8 @@ def gen_exhaustive(rng, maxn):
                 for nB in range(aB + 1):
                     rounds = [{"sizes": [nA, nB], "cont": False}]
                     if rng.chance(0.5):
-                        rounds.append({"sizes": [rng.randint(nA, aA), rng.randint(nB, aB)], "cont": rng.chance(0.5)})
+                        rounds.append({"sizes": [rng.randint(nA, aA), rng.randint(nB, aB)], "cont": rng.chance(0.5),
+                                       "prev_order": rng.choice(["returned", "index", "rev"])})
                     yield {"kind": "rounds", "use_style": True, "cards": cards,
                            "contests": [{"id": "A", "size": 0, "thr": None}, {"id": "B", "size": 0, "thr": None}],
                            "rounds": rounds, "vseed": rng.randint(0, 10 ** 6)}
@@ -783,6 +792,28 @@ def oracle_c07(case, ir):
                     if nc >= 1 and res["thr"][ci] != want[first[-1]]:
                         return {"what": f"operation {j} contest {case['contests'][ci]}: threshold {res['thr'][ci]} is not "
                                         f"the sample number of its {nc}-th card under a fresh numbering"}
+        return None
+    if k == "cs":
+        # one call on Contest objects that may carry a threshold from an earlier draw (`thr`), no carried-over sample
+        if case["prev"] is not None or not _valid_cards(case) or ir.get("st") != "ok":
+            return None
+        sizes = [int(c["size"]) for c in case["contests"]]
+        pf = _prefixes(case, sizes)
+        if any(nc < 0 or nc > len(mine) for (mine, _), nc in zip(pf, sizes)):
+            return None                      # outside the quantifier (IndexError expected)
+        union = set()
+        for _, first in pf:
+            union |= set(first)
+        want = [i for i in _order(case["cards"]) if i in union]
+        if ir["sel"] != want:
+            return {"what": f"selected {ir['sel']}, union of per-contest prefixes in sample order is {want}", "sizes": sizes}
+        for ci, ((mine, first), nc) in enumerate(zip(pf, sizes)):
+            if nc >= 1:
+                t = str(int(case["cards"][first[-1]]["num"]))
+                if ir["thr"][ci] != t:
+                    return {"what": f"contest {case['contests'][ci]['id']} (threshold {case['contests'][ci].get('thr')} left by "
+                                    f"an earlier draw): threshold after this draw is {ir['thr'][ci]}, the sample number "
+                                    f"of its {nc}-th card is {t}"}
         return None
     if k != "rounds" or not case["use_style"] or not _valid_cards(case):
         return None
